@@ -133,32 +133,33 @@ def rule_PV(ctx, fm):
     g = gis[0]
     gp = au.params(g)
     els = [n for n in ast.walk(g) if isinstance(n, ast.If)][0].orelse
+    ret = [n for n in ast.walk(g) if isinstance(n, ast.Return)]
+    ctx.anchor(len(ret) == 1 and isinstance(ret[0].value, ast.Tuple) and
+               len(ret[0].value.elts) == 3 and all(
+                   isinstance(e, ast.Name) for e in ret[0].value.elts),
+               'get_index_and_strength returns (r, e, upper index)')
+    rn, en, un = (e.id for e in ret[0].value.elts)
     env = {}
     c0, c1, x = sp.symbols('c0 c1 x')
     vals = {}
     for st in els:
         if isinstance(st, ast.Assign):
             t = ast.unparse(st.targets[0])
-            if t == 'ic1':
+            if t == un:
                 vals[t] = ast.unparse(st.value).replace(' ', '')
             else:
                 lf = Lifter({gp[2]: x, f'{gp[3]}[{gp[0]}]': c0,
-                             f'{gp[3]}[ic1]': c1, **env}, {}, fm.rel,
+                             f'{gp[3]}[{un}]': c1, **env}, {}, fm.rel,
                             strict=True)
                 env[t] = lf.lift(st.value)
-    ok = vals.get('ic1') in (f'{gp[0]}+1', f'1+{gp[0]}') and \
-        equal(env.get('rc', 0), (x - c0) / (c1 - c0)) and \
-        equal(env.get('ec', 0), 1 - (x - c0) / (c1 - c0))
+    ok = vals.get(un) in (f'{gp[0]}+1', f'1+{gp[0]}') and \
+        equal(env.get(rn, 0), (x - c0) / (c1 - c0)) and \
+        equal(env.get(en, 0), 1 - (x - c0) / (c1 - c0))
     ctx.check('C09.PV.linear', 'get_index_and_strength: linear weights', ok,
-              f'weights are r={env.get("rc")}, e={env.get("ec")}, upper '
-              f'index {vals.get("ic1")}; trilinear interpolation needs '
+              f'weights are r={env.get(rn)}, e={env.get(en)}, upper '
+              f'index {vals.get(un)}; trilinear interpolation needs '
               'r=(x-c[i])/(c[i+1]-c[i]), e=1-r, i+1', ctx.where(fm, g),
-              sample={'r': str(env.get('rc')), 'e': str(env.get('ec'))})
-    ret = [n for n in ast.walk(g) if isinstance(n, ast.Return)]
-    ctx.check('C09.PV.linear', 'get_index_and_strength return order',
-              len(ret) == 1 and ast.unparse(ret[0].value).replace(' ', '')
-              == '(rc,ec,ic1)', 'return order is not (r, e, upper index)',
-              ctx.where(fm, g))
+              sample={'r': str(env.get(rn)), 'e': str(env.get(en))})
     # component vectors and scaling
     vf = find('_v_ = Field(_g_, dtype=float)', pv)
     ctx.anchor(len(vf) == 1, 'vector field in _point_vector')
@@ -193,9 +194,17 @@ def rule_PV(ctx, fm):
 
 def rule_RC(ctx, fm):
     gr = fm.func('get_receiver')
+    gp_ = au.params(gr)
+    pf = find('_u_, _xi_, _sh_ = maps._points_from_grids(_g_, __, __, __)',
+              gr)
+    ctx.anchor(len(pf) == 1, 'sampling points in get_receiver')
+    xi, gn = pf[0][1]['_xi_'], pf[0][1]['_g_']
     inds = [n for n in ast.walk(gr) if isinstance(n, ast.Assign) and
-            ast.unparse(n.targets[0]) == 'ind']
+            isinstance(n.targets[0], ast.Name) and sum(
+                isinstance(c, ast.Compare) for c in ast.walk(n.value)) >= 4
+            and 'nodes_' in ast.unparse(n.value)]
     ctx.anchor(len(inds) == 1, 'NaN mask in get_receiver')
+    ind = inds[0].targets[0].id
     cmps = [c for c in ast.walk(inds[0].value) if isinstance(c, ast.Compare)]
     got = set()
     for c in cmps:
@@ -205,12 +214,13 @@ def rule_RC(ctx, fm):
         got.add((l, op, r))
     want = set()
     for a, ax in enumerate('xyz'):
-        want.add((f'xi[:,{a}]', 'Lt', f'grid.nodes_{ax}[1]'))
-        want.add((f'xi[:,{a}]', 'Gt', f'grid.nodes_{ax}[-2]'))
+        want.add((f'{xi}[:,{a}]', 'Lt', f'{gn}.nodes_{ax}[1]'))
+        want.add((f'{xi}[:,{a}]', 'Gt', f'{gn}.nodes_{ax}[-2]'))
     for w in sorted(want):
-        ctx.check('C09.RC.mask', f'get_receiver NaN mask {w[0]} {w[1]} '
-                  f'{w[2]}', w in got, 'receivers in the outermost cells on '
-                  'this side are not set to NaN', ctx.where(fm, inds[0]),
+        ctx.check('C09.RC.mask', f'get_receiver NaN mask column '
+                  f'{w[0][-2]} {w[1]} {w[2].split(".")[-1]}', w in got,
+                  'receivers in the outermost cells on this side are not '
+                  'set to NaN', ctx.where(fm, inds[0]),
                   sample={'comparison': list(w)})
     ctx.check('C09.RC.mask', 'get_receiver NaN mask: no other comparison',
               got == want and all(isinstance(b.op, ast.BitOr) for b in
@@ -218,8 +228,11 @@ def rule_RC(ctx, fm):
                                   if isinstance(b, ast.BinOp)),
               f'mask contains {sorted(got - want)}', ctx.where(fm, inds[0]))
     ctx.floor('C09.RC.mask', 7)
+    rz = find(f'_r_ = np.zeros({xi}.shape[0], dtype=__)', gr)
+    ctx.anchor(len(rz) == 1, 'response vector in get_receiver')
+    resp = rz[0][1]['_r_']
     st = [n for n in gr.body if isinstance(n, ast.Assign) and
-          ast.unparse(n.targets[0]) == 'resp[ind]']
+          ast.unparse(n.targets[0]) == f'{resp}[{ind}]']
     loop = [n for n in gr.body if isinstance(n, ast.For) and
             'maps.interpolate' in ast.unparse(n)]
     ctx.anchor(len(loop) == 1, 'component loop in get_receiver')
@@ -231,14 +244,13 @@ def rule_RC(ctx, fm):
               ctx.where(fm, gr))
     acc = [n for n in ast.walk(loop[0]) if isinstance(n, (ast.Assign,
                                                           ast.AugAssign))
-           and 'resp' in ast.unparse(n.targets[0] if isinstance(
+           and resp in ast.unparse(n.targets[0] if isinstance(
                n, ast.Assign) else n.target)]
     ctx.check('C09.RC.order', 'get_receiver: components are accumulated',
               all(isinstance(n, ast.AugAssign) and isinstance(n.op, ast.Add)
                   for n in acc) and bool(acc),
               'component contributions overwrite instead of accumulate',
               ctx.where(fm, loop[0]))
-    gp_ = au.params(gr)
     ctx.check('C09.RC.order', 'get_receiver: linear mode fills with NaN',
               any(has(f"{gp_[2]} == 'linear'", n.test) and
                   has("_o_['fill_value'] = np.nan", n.body)
@@ -272,7 +284,15 @@ def rule_RO(ctx):
                'rotation returns np.array([...])')
     az, el = sp.symbols('az el', real=True)
     rp = au.params(rot)
-    lf = Lifter({rp[0]: az, rp[1]: el}, {'cos': sp.cos, 'sin': sp.sin},
+    tr = find('_c_, _s_ = (np.cos, np.sin)', rot)
+    td = find('_c_, _s_ = (sp.special.cosdg, sp.special.sindg)', rot)
+    ctx.check('C09.RO.formula', 'rotation: degree / radian functions',
+              len(tr) == 1 and len(td) == 1 and tr[0][1] == td[0][1],
+              'cos/sin are not bound to (cosdg, sindg) / (np.cos, np.sin)',
+              ctx.where(em, rot))
+    cn = tr[0][1]['_c_'] if tr else 'cos'
+    sn = tr[0][1]['_s_'] if tr else 'sin'
+    lf = Lifter({rp[0]: az, rp[1]: el}, {cn: sp.cos, sn: sp.sin},
                 em.rel, strict=True)
     got = [lf.lift(e) for e in ret[0].value.args[0].elts]
     want = [sp.cos(az) * sp.cos(el), sp.sin(az) * sp.cos(el), sp.sin(el)]
@@ -281,12 +301,6 @@ def rule_RO(ctx):
               f'rotation factors are {got}; documented '
               '(cos az cos el, sin az cos el, sin el)', ctx.where(em, rot),
               sample={'lifted': [str(g) for g in got]})
-    t = ast.unparse(rot).replace(' ', '')
-    ctx.check('C09.RO.formula', 'rotation: degree / radian functions',
-              'cos,sin=(sp.special.cosdg,sp.special.sindg)' in t and
-              'cos,sin=(np.cos,np.sin)' in t,
-              'cos/sin are not bound to (cosdg, sindg) / (np.cos, np.sin)',
-              ctx.where(em, rot))
 
 
 def rule_EC(ctx, fm):
@@ -362,26 +376,34 @@ def rule_EC(ctx, fm):
                       ctx.where(fm, s.node))
     # caller
     gm = fm.func('get_magnetic_field')
-    t = ast.unparse(gm).replace(' ', '')
     gp = au.params(gm)
+    hf = find(f'_h_ = Field({gp[1]}.grid, frequency={gp[1]}._frequency, '
+              'electric=False)', gm)
+    ctx.check('C09.EC.callsite', 'get_magnetic_field: magnetic field object',
+              len(hf) == 1, 'result is not a face field of the same '
+              'grid/frequency', ctx.where(fm, gm))
+    vm = find(f'_vm_ = models.VolumeModel({gp[0]}, {gp[1]})', gm)
+    zt = find(f'_z_ = _vm_.zeta / {gp[1]}.smu0', gm,
+              {'_vm_': vm[0][1]['_vm_']} if vm else None)
     ctx.check('C09.EC.callsite', 'get_magnetic_field: zeta / (s mu0)',
-              f'zeta=vmodel.zeta/{gp[1]}.smu0' in t and
-              f'vmodel=models.VolumeModel({gp[0]},{gp[1]})' in t,
+              len(vm) == 1 and len(zt) == 1,
               'the factor handed to the curl kernel is not V/(mu_r s mu0)',
               ctx.where(fm, gm))
     call = au.calls(gm, '_edge_curl_factor')
     ctx.anchor(len(call) == 1, '_edge_curl_factor call')
     args = [ast.unparse(x) for x in call[0].args]
-    want = ['hfield.fx', 'hfield.fy', 'hfield.fz', f'{gp[1]}.fx',
+    h = hf[0][1]['_h_'] if hf else 'hfield'
+    z = zt[0][1]['_z_'] if zt else 'zeta'
+    want = [f'{h}.fx', f'{h}.fy', f'{h}.fz', f'{gp[1]}.fx',
             f'{gp[1]}.fy', f'{gp[1]}.fz', f'{gp[1]}.grid.h[0]',
-            f'{gp[1]}.grid.h[1]', f'{gp[1]}.grid.h[2]', 'zeta']
+            f'{gp[1]}.grid.h[1]', f'{gp[1]}.grid.h[2]', z]
     ctx.check('C09.EC.callsite', 'get_magnetic_field -> _edge_curl_factor',
               args == want, f'arguments {args} are not in their roles',
               ctx.where(fm, call[0]))
-    ctx.check('C09.EC.callsite', 'get_magnetic_field: magnetic field object',
-              f'hfield=Field({gp[1]}.grid,frequency={gp[1]}._frequency,'
-              'electric=False)' in t, 'result is not a face field of the '
-              'same grid/frequency', ctx.where(fm, gm))
+    rets = [n for n in ast.walk(gm) if isinstance(n, ast.Return)]
+    ctx.check('C09.EC.callsite', 'get_magnetic_field returns the face field',
+              len(rets) == 1 and ast.unparse(rets[0].value) == h,
+              'the computed face field is not returned', ctx.where(fm, gm))
 
 
 def run(ctx):
